@@ -616,9 +616,14 @@ fn tmr(x: &mut Exec) -> Res {
                         let b2 = b.clone();
                         let early = 200 + r.below(600);
                         let long = *r.pick(&[300u64, 10_000, 3_600_000]);
+                        // when the helper's unpark had *returned*, measured from the same t0: on a loaded machine the
+                        // helper may get there later than the (shortest) time-out, then Timeout is the right answer
+                        let done_us = Arc::new(AtomicU64::new(u64::MAX));
+                        let du = done_us.clone();
                         let h = std::thread::spawn(move || {
                             std::thread::sleep(Duration::from_micros(early));
                             b2.unpark();
+                            du.store(t0.elapsed().as_micros() as u64, SeqCst);
                         });
                         let res = b.park(Some(Duration::from_millis(long)));
                         let el = t0.elapsed();
@@ -629,8 +634,9 @@ fn tmr(x: &mut Exec) -> Res {
                             }
                         }
                         let _ = h.join();
-                        if res.is_err() {
-                            errs.lock().unwrap().push(format!("park({}ms) + unpark after {}us returned {:?} after {:?}", long, early, res, el));
+                        let unparked_at = done_us.load(SeqCst);
+                        if res.is_err() && unparked_at.saturating_add(1_000) < long * 1_000 {
+                            errs.lock().unwrap().push(format!("park({}ms) returned {:?} after {:?} although unpark() had returned {}us after the park was called, before the deadline", long, res, el, unparked_at));
                         }
                         if el < Duration::from_micros(early) {
                             errs.lock().unwrap().push(format!("park returned Ok after {:?}, before the unpark at {}us", el, early));
